@@ -617,7 +617,7 @@ pub fn snapshot<SE: ShellExtensions>(shell: &Shell<SE>) -> serde_json::Value {
     use std::os::fd::AsRawFd;
     let mut v = serde_json::to_value(shell).unwrap_or(serde_json::Value::Null);
     if let Some(o) = v.as_object_mut() {
-        for k in ["last_exit_status", "last_exit_status_change_count", "last_pipeline_statuses", "last_stopwatch_time", "last_stopwatch_offset"] {
+        for k in ["last_exit_status", "last_exit_status_change_count", "last_pipeline_statuses", "last_stopwatch_time"] {
             o.remove(k);
         }
         // persistent descriptor table with identities
